@@ -611,13 +611,22 @@ def site_class(P):
     return "obj=%s|cons=%s" % ("pwl" if pw(P["obj"]) else "affine", "pwl" if any(pw(c["a"]) or pw(c["b"]) for c in P["cons"]) else "affine")
 
 
-def tlc_batch(ck, module, name, payload, chunk=400):
-    outs = []
-    for c0 in range(0, len(payload), chunk):
+def tlc_batch(ck, module, name, payload, chunk=400, par=8):
+    """evaluate a constant-level TLC module on the payload, in chunks, several TLC processes at a time"""
+    from concurrent.futures import ThreadPoolExecutor
+    chunks = list(range(0, len(payload), chunk))
+    def one(c0):
         wd = tlc.workdir("c12/%s%d" % (name, c0 // chunk))
         cf, of = os.path.join(wd, "cases.json"), os.path.join(wd, "out.json")
         json.dump(payload[c0:c0 + chunk], open(cf, "w"))
-        r = tlc.run_tlc(module, "SPECIFICATION Spec\n", wd, workers=1, env={"CASE_FILE": cf, "OUT_FILE": of}, timeout=3000, heap="6g")
+        if os.path.exists(of):
+            os.unlink(of)
+        r = tlc.run_tlc(module, "SPECIFICATION Spec\n", wd, workers=1, env={"CASE_FILE": cf, "OUT_FILE": of}, timeout=3000, heap="3g")
+        return r, of
+    with ThreadPoolExecutor(max_workers=par) as ex:
+        results = list(ex.map(one, chunks))
+    outs = []
+    for c0, (r, of) in zip(chunks, results):
         if not ck.require_tlc_ok("%s batch %d" % (module, c0 // chunk), r):
             ck.finish()
         outs += json.load(open(of))["res"]
